@@ -525,7 +525,12 @@ func (e *c16Env) monitors(a c16Act, res string, pre, post c16Obs) {
 	case "revoke":
 		delete(e.grants, [2]int{a.actor, a.to})
 	}
-	// supply ledger and tracked admin vs authority metadata
+	e.ledgerCheck(post)
+}
+
+// ledgerCheck: supply = start + successful mints - successful burns, and the authority metadata names the tracked admin
+// (tracked from the RESULTS of create / change-admin only), for every watched denomination.
+func (e *c16Env) ledgerCheck(post c16Obs) {
 	for _, d := range e.watch {
 		s0, _ := new(big.Int).SetString(e.start.full[d].supply, 10)
 		if m := e.minted[d]; m != nil {
@@ -1224,6 +1229,9 @@ func TestC16(t *testing.T) {
 				}
 				e.monitors(act, res, pre, post)
 			}
+			// ---- contracts dispatch the protobuf messages themselves (CosmosMsg::Any), bare and inside authz.MsgExec
+			// with several inner messages, on the state the history has built (c16_any_test.go) ----
+			e.anyPhase(cs, c16AnyUniverse{factory: factory, subs: subs, other: otherValid, malformed: malformed}, post)
 			r.Case(fmt.Sprintf("%x", sha256.Sum256([]byte(strings.Join(e.hist, "\n")))), okCreates > 0 && okMints > 0)
 		}
 		e.fast = cs%6 != 5
